@@ -69,6 +69,14 @@ func c38new() *classic.Interp {
 		}
 		c38trace = append(c38trace, fmt.Sprintf("%d:%d", tag, v))
 	})
+	// g(tag, v): a case expression with an observable side effect (C05's `Guard.eff`)
+	def("g", func(tag, v int) int {
+		if len(c38trace) >= c38budget {
+			panic("emit budget exceeded")
+		}
+		c38trace = append(c38trace, fmt.Sprintf("%d:%d", tag, v))
+		return v
+	})
 	def("lg", func(s string) {
 		if len(c38log) >= c38budget {
 			panic("log budget exceeded")
@@ -771,7 +779,7 @@ func c38prepare(ops []string) {
 			j = len(progs)
 		}
 		var decls, body strings.Builder
-		decls.WriteString("var emitF func(int, int)\nfunc emit(tag, v int) { emitF(tag, v) }\n")
+		decls.WriteString("var emitF func(int, int)\nfunc emit(tag, v int) { emitF(tag, v) }\nfunc g(tag, v int) int { emitF(tag, v); return v }\n")
 		body.WriteString("var tr []string\nemitF = func(tag, v int) { if len(tr) >= 4000 { panic(\"emit budget exceeded\") }; tr = append(tr, fmt.Sprintf(\"%d:%d\", tag, v)) }\n")
 		var own []string
 		for k, op := range progs[i:j] {
@@ -1149,6 +1157,10 @@ func c38genOps(r *rand.Rand, tier string, emit func(string)) {
 	// C05's systematic family + random structured programs, without goto (classic: "unimplemented: goto")
 	gotoHeads := map[string]bool{"goto": true, "lab": true}
 	for _, p := range c05systematic() {
+		emit("prog ? 20000 " + p)
+	}
+	// case lists mixing constants and side-effecting expressions in all orders, default in every position
+	for _, p := range c05switchFamily() {
 		emit("prog ? 20000 " + p)
 	}
 	n := 700
